@@ -345,6 +345,15 @@ def traces_of_hidden(out: str, system: Any, target: str, pages: Optional[Dict[st
                 items = [x.strip() for x in re.sub(r'<[^>]+>', '', m.group(3)).replace(':', ' ').split(',')]
                 if k in [i.strip() for i in items]:
                     sigs.append((('hidden-in-relationship-list', m.group(2).replace(' ', '-'), kindname), f'{f}: "{m.group(2)}" lists hidden {k}'))
+        # an index ROW without a link is a row all the same: modules in the module index and on the start page
+        if isinstance(o, model.Module):
+            for f in ('moduleIndex.html', 'index.html'):
+                pth = os.path.join(out, f)
+                if os.path.exists(pth):
+                    txt = open(pth, encoding='utf-8').read()
+                    for m in re.finditer(r'<li[^>]*>\s*(?:<[^>]+>\s*)*<code[^>]*>(.*?)</code>', txt, flags=re.S):
+                        if re.sub(r'<[^>]+>', '', m.group(1)).strip() == k:
+                            sigs.append((('hidden-index-row-as-text', f.split('.')[0], kindname), f'{f}: an index row names hidden {k}'))
         for idx in ('searchindex.json', 'fullsearchindex.json'):
             pth = os.path.join(out, idx)
             # a search entry is a lunr document whose ref is the qualified name: field vectors are keyed "<field>/<ref>"
